@@ -27,13 +27,15 @@ GRID_FAMILY = {
     'align0_ll': dict(srs='EPSG:25832', bbox=(0, 0, 384000, 256000), res=[500, 300, 100], origin='ll'),
     'close_ll': dict(srs='EPSG:25832', bbox=(0, 0, 1000000, 1000000), res=[1000, 950, 900, 500, 480, 100],
                      origin='ll', stretch_factor=2.5, max_shrink_factor=3.0),
+    # degree grid with very small tiles (deep zoom levels): a meta tile spans ~1e-4 units
+    'tiny_ll': dict(srs='EPSG:4326', bbox=(8.0, 50.0, 8.004, 50.002), res=[2e-6, 1e-6], origin='ll', tile_size=(64, 64)),
 }
 
 QUICK_GRIDS = ['align0_ll', 'merc_ll', 'geod_ul', 'sqrt2_ll', 'utm_ul', 'utm_ll', 'frac_ll', 'frac_ul', 'multi0_ul']
 
 
 def grid_names(tier):
-    return list(GRID_FAMILY) if tier == 'thorough' else list(QUICK_GRIDS)
+    return [n for n in GRID_FAMILY if n != 'tiny_ll'] if tier == 'thorough' else list(QUICK_GRIDS)
 
 
 def seeded_grid_cfg(seed, i):
